@@ -239,3 +239,53 @@ def sup_abs(fn, lo, hi, m=2001):
     """max |fn| on [lo, hi] from a dense fixed grid, inflated by 2 % (the functions are smooth)"""
     x = np.linspace(lo, hi, m)
     return 1.02 * float(np.max(np.abs(fn(x))))
+
+
+# ----------------------------------------------------------------------------------------------
+# "inputs are not modified": bit-exact snapshots of everything reachable from an object handed to the library
+
+def snapshot(obj, depth=3, _name="", _out=None, _seen=None):
+    """
+    {path: fingerprint} of every numpy array / number / string / tuple reachable from `obj` (a numpy array, a dict of
+    inputs, or a data object with attributes such as x, dx, dxl, qx_data, dqx_data, mask, source.wavelength,
+    sample.zacceptance, detector[...]).  Arrays are fingerprinted by dtype, shape and bytes.
+    """
+    out = {} if _out is None else _out
+    seen = set() if _seen is None else _seen
+    if isinstance(obj, np.ndarray):
+        out[_name or "array"] = ("ndarray", str(obj.dtype), obj.shape, obj.tobytes())
+    elif isinstance(obj, (bool, int, float, complex, str, bytes, type(None), np.generic)):
+        out[_name or "value"] = ("value", repr(obj))
+    elif isinstance(obj, (list, tuple)):
+        for k, v in enumerate(obj):
+            snapshot(v, depth, "%s[%d]" % (_name, k), out, seen)
+    elif isinstance(obj, dict):
+        for k in sorted(obj, key=str):
+            snapshot(obj[k], depth, "%s%s" % (_name + "." if _name else "", k), out, seen)
+    elif depth > 0 and hasattr(obj, "__dict__") and id(obj) not in seen:
+        seen.add(id(obj))
+        for k in sorted(vars(obj)):
+            if not k.startswith("__"):
+                snapshot(getattr(obj, k), depth - 1, "%s%s" % (_name + "." if _name else "", k), out, seen)
+    return out
+
+
+def changed(before, obj):
+    """names of the inputs whose content differs from the snapshot taken before (added / removed attributes included)"""
+    after = snapshot(obj)
+    names = [k for k in before if k not in after or after[k] != before[k]]
+    names += [k for k in after if k not in before]
+    return sorted(names)
+
+
+def describe_change(before, obj, name):
+    """short 'was -> is' text for one changed input"""
+    after = snapshot(obj)
+    def show(f):
+        if f is None:
+            return "absent"
+        if f[0] == "ndarray":
+            a = np.frombuffer(f[3], dtype=f[1]).reshape(f[2])
+            return np.array2string(a.ravel()[:4], precision=6) + ("..." if a.size > 4 else "")
+        return f[1]
+    return "%s: %s -> %s" % (name, show(before.get(name)), show(after.get(name)))
